@@ -153,6 +153,11 @@ Proof.
 Qed.
 Print Assumptions C15_wide_int_text_refuted.
 
+(* var a = {}; a.a = a : Export follows the reference for ever (no fuel suffices); in Go the stack overflows *)
+Theorem C15_export_cyclic_refuted : exists h v, forall fuel, gexport fuel h v = None.
+Proof. exists cyclic_heap, (HRef 0). exact export_cyclic_diverges. Qed.
+Print Assumptions C15_export_cyclic_refuted.
+
 (* [1,,2]: the hole is dropped *)
 Theorem C15_export_holes_refuted : exists v, export_m v <> Ok (export_s v).
 Proof. exists (JArr [Some (JNumI KInt64 1); None; Some (JNumI KInt64 2)]). vm_compute. discriminate. Qed.
@@ -171,6 +176,11 @@ Example C15_float32_regression :
   to_boolean (toValue true (GF32 nan32_bits)) = false /\
   marshal_json (fun _ => []) (fun s => s) (toValue false (GF64 nan_bits)) = Some str_null.
 Proof. vm_compute. repeat split; reflexivity. Qed.
+
+Example C15_export_acyclic_met :
+  gexport 3 [[([97], HRef 1%nat); ([99], HNum 2)]; [([98], HNum 1)]] (HRef 0) =
+  Some (GNode [([97], GNode [([98], GLeaf 1)]); ([99], GLeaf 2)]).
+Proof. exact export_acyclic_example. Qed.
 
 (* non-vacuity *)
 Example C15_typed_rule_met :
